@@ -329,10 +329,7 @@ def rule_transitions(ctx):
         else:
             ctx.check(delhash and not sethash and not succ, mc.fq, "unsuccessful completion deletes the hash", "an unsuccessful step keeps a stored hash: it would be skipped later", "delete_hash on the failure branch")
     # delete_hash pairing: other sites
-    ar = ctx.prog.func("step.Step.after_recycle")
-    src = ast.unparse(ar.node)
-    ok = re.search(r"state == StepState\.SUCCEEDED and self\.get_hash\(\) is None", src) is not None and "mark_step_pending" in src
-    ctx.check(ok, ar.fq, "a recycled SUCCEEDED step without hash is re-pended", "after_recycle keeps a SUCCEEDED step that lost its hash while detached: it is never run again", "re-pended")
+    shared.check_after_recycle_repends(ctx, "after_recycle keeps a SUCCEEDED step that lost its hash while detached (it is never run again), or keeps a FAILED one")
     alp = ctx.prog.func("step.Step.after_lost_product")
     src = ast.unparse(alp.node)
     ok = "self.delete_hash()" in src and re.search(r"creator\.after_lost_product\(\)", src) is not None and "creator_detached" in src
